@@ -51,7 +51,7 @@ def build_harness(bins=None):
 
 
 def run_tlc(module, cfg, tag, workers=None, extra=None, env=None, timeout=1800, simulate=None, depth_first=False,
-            keep_tags=("REPLAY", "CEX"), max_keep=20000):
+            keep_tags=("REPLAY", "CEX"), max_keep=20000, prefer=()):
     """run TLC in spec/; stdout goes to a file and is streamed: lines printed by
     PrintT(<<"TAG", json>>) for TAG in keep_tags are reservoir-sampled (at most max_keep per
     tag, seeded) into r["printed"][TAG] as raw strings, everything else is kept as r["out"]."""
@@ -78,6 +78,7 @@ def run_tlc(module, cfg, tag, workers=None, extra=None, env=None, timeout=1800, 
     import heapq
     sd = str(seed()).encode()
     heaps = {t: [] for t in keep_tags}
+    pheaps = {t: [] for t in keep_tags}      # lines mentioning one of `prefer`: sampled separately, kept first
     counts = {t: 0 for t in keep_tags}
     rest = []
     prefixes = {t: '<<"%s", ' % t for t in keep_tags}
@@ -89,7 +90,7 @@ def run_tlc(module, cfg, tag, workers=None, extra=None, env=None, timeout=1800, 
                     hit = True
                     counts[t] += 1
                     h = hashlib.sha1(sd + line.encode()).digest()
-                    hp = heaps[t]
+                    hp = pheaps[t] if prefer and any(x in line for x in prefer) else heaps[t]
                     # max-heap on the hash (store negated bytes via tuple of ints is slow: use int)
                     hv = int.from_bytes(h[:8], "big")
                     if len(hp) < max_keep:
@@ -99,7 +100,8 @@ def run_tlc(module, cfg, tag, workers=None, extra=None, env=None, timeout=1800, 
                     break
             if not hit and len(rest) < 20000:
                 rest.append(line)
-    printed = {t: [l for _, l in sorted(heaps[t], key=lambda x: (-x[0], x[1]))] for t in keep_tags}
+    printed = {t: [l for _, l in sorted(pheaps[t], key=lambda x: (-x[0], x[1]))] + [l for _, l in sorted(heaps[t], key=lambda x: (-x[0], x[1]))]
+               for t in keep_tags}
     try:
         os.remove(outf)
     except OSError:
